@@ -6,6 +6,7 @@ import NetVerif.Model.BpfVM
 Line-protocol driver for the bpf VM model (C49). Stateless.
   newvm <prog>        -> ok | err
   run <prog> <pkt>    -> rej | ok <n> | err | panic        (NewVM then VM.Run; typed model)
+  runs <prog> <pkt>…  -> rej | ok <r1> <r2> …   (one NewVM, then Run on each packet in turn on the SAME VM; ri = n | err | panic)
   ref <prog> <pkt>    -> err-asm | ok <n> | invalid         (reference interpreter on Assemble(prog))
 -/
 open NetVerif.Driver NetVerif.Driver.BpfText NetVerif.Model.Bpf NetVerif.Model.BpfVM
@@ -14,6 +15,14 @@ def showTyped : Outcome → String
   | .ret v => s!"ok {v}"
   | .halt => "ok 0"
   | .fellOff => "ok 0"
+  | .err => "err"
+  | .panic => "panic"
+  | .outOfFuel => "fuel"
+
+def showSeq : Outcome → String
+  | .ret v => s!"{v}"
+  | .halt => "0"
+  | .fellOff => "0"
   | .err => "err"
   | .panic => "panic"
   | .outOfFuel => "fuel"
@@ -36,6 +45,13 @@ def c49Step (_ : Unit) (line : String) : Unit × String :=
     | ["run", p, b] =>
       match parseProg p, parseBytes b with
       | some p, some pkt => if newVM p then showTyped (runTyped p pkt) else "rej"
+      | _, _ => "bad-op"
+    | "runs" :: p :: bs =>
+      -- several Run calls on ONE VM value
+      match parseProg p, bs.mapM parseBytes with
+      | some p, some pkts =>
+        if bs.isEmpty then "bad-op"
+        else if newVM p then "ok " ++ " ".intercalate ((VM.runSeq ⟨p⟩ pkts).map showSeq) else "rej"
       | _, _ => "bad-op"
     | ["ref", p, b] =>
       match parseProg p, parseBytes b with
